@@ -1,15 +1,15 @@
 SPECIFICATION Spec
 CONSTANTS
-  MTUs = {49, 256}
-  KeyLens = {1, 23, 24, 40}
-  Rems = {0, 1, 6, 7, 8, 9, 31, 32}
+  MTUs = {49}
+  KeyLens = {1, 24}
+  Rems = {0, 1, 7, 8, 9}
   MaxMsgs = 2
   TailLens = {1}
   Spans = {0, 1}
   YieldSets = {{}, {1}, {0, 2}}
-  SplitKinds = {0, 1, 3, 6, 24}
-  TailSplitKinds = {0}
-  LateKinds = {1}
+  SplitKinds = {0, 3, 7, 17, 24}
+  TailSplitKinds = {0, 21}
+  LateKinds = {0, 3}
   EmptyFeeds = TRUE
   Interleave = TRUE
 INVARIANTS TypeOK Lossless Contiguous FitsBudget SmallIsPure YieldStartsNewBatch
